@@ -166,6 +166,10 @@ func RunOne(t *testing.T, e Engine, cfg RunConfig, sc any) (res *RunResult) {
 	// No garbage collection while a run executes (one before it, a memory limit as the safety net): a collection
 	// cycle stops and re-queues goroutines at moments that depend on real time and on what earlier runs of the process
 	// left on the heap, which is the one thing that made the same run take two different schedules in two processes.
+	// Two collections, not one: the second also empties the victim caches of every sync.Pool, so that no pooled object of
+	// the library outlives the bubble it was used in (the runtime refuses a WaitGroup or a timer that crosses bubbles, and a
+	// real process has no bubbles to cross).
+	runtime.GC()
 	runtime.GC()
 	oldGC := debug.SetGCPercent(-1)
 	oldLimit := debug.SetMemoryLimit(3 << 30)
